@@ -55,23 +55,39 @@ def get_default_table(run):
     from ..evalfn import Evaluator
     g = run.repo.func("utype.parser.field", "ParserField.get_default")
     U = _Unprovided()
-    rows = []
-    for no_default in (False, True):
-        for defer in (False, True, None):
-            for f_defer in (False, True):
-                for o_defer in (False, True):
-                    for forced in (U, "forced"):
-                        for declared in (U, "declared"):
-                            for factory in (None, "factory"):
-                                self_ns = SimpleNamespace(defer_default=f_defer, default=declared, name="field",
-                                                          default_factory=(lambda: "factory") if factory else None)
-                                opts = SimpleNamespace(no_default=no_default, defer_default=o_defer, force_default=forced)
-                                env = {"self": self_ns, "options": opts, "defer": defer, "unprovided": U,
-                                       "copy_value": lambda v: ("copy", v), "repr": repr}
-                                for p_ in g.params:
-                                    env.setdefault(p_, None)
-                                got = Evaluator(g.node, env, {}).run()
-                                rows.append(((no_default, defer, f_defer, o_defer, forced, declared, factory), got, U))
+    import itertools
+    import re as _re
+    extra = []          # attributes the function reads that the documented rule does not know: every value is tried
+    while True:
+        rows = []
+        try:
+            for no_default in (False, True):
+                for defer in (False, True, None):
+                    for f_defer in (False, True):
+                        for o_defer in (False, True):
+                            for forced in (U, "forced"):
+                                for declared in (U, "declared"):
+                                    for factory in (None, "factory"):
+                                        for vals in itertools.product((False, True), repeat=len(extra)):
+                                            self_ns = SimpleNamespace(defer_default=f_defer, default=declared, name="field",
+                                                                      default_factory=(lambda: "factory") if factory else None)
+                                            opts = SimpleNamespace(no_default=no_default, defer_default=o_defer,
+                                                                   force_default=forced)
+                                            for (owner, attr), v in zip(extra, vals):
+                                                setattr(self_ns if owner == "self" else opts, attr, v)
+                                            env = {"self": self_ns, "options": opts, "defer": defer, "unprovided": U,
+                                                   "copy_value": lambda v: ("copy", v), "repr": repr}
+                                            for p_ in g.params:
+                                                env.setdefault(p_, None)
+                                            got = Evaluator(g.node, env, {}).run()
+                                            rows.append(((no_default, defer, f_defer, o_defer, forced, declared, factory)
+                                                         + tuple(f"{o}.{a_}={v}" for (o, a_), v in zip(extra, vals)), got, U))
+            break
+        except AnalysisError as e:
+            m = _re.search(r"attribute (self|options)\.(\w+) is outside the modelled domain", str(e))
+            if not m or len(extra) >= 3 or (m.group(1), m.group(2)) in extra:
+                raise
+            extra.append((m.group(1), m.group(2)))
     return g, rows
 
 
@@ -315,7 +331,7 @@ def r05e(run):
     g, rows = get_default_table(run)
     wrong = {}
     for inputs, got, U in rows:
-        no_default, defer, f_defer, o_defer, forced, declared, factory = inputs
+        no_default, defer, f_defer, o_defer, forced, declared, factory = inputs[:7]
         if no_default:
             want, clause = U, "no_default suppresses every default"
         elif isinstance(defer, bool) and bool(f_defer or o_defer) is not defer:
